@@ -244,7 +244,7 @@ def field_map_option(c, which, field_type):
 def jobs(tier):
     J = []
     q = tier == 'quick'
-    asym3 = np.array([0.5, 0.3, 0.2]); asym4 = np.array([0.4, 0.3, 0.2, 0.1])
+    asym3 = np.array([0.5, 0.3, 0.45]); asym4 = np.array([0.4, 0.3, 0.2, 0.35])       # (custom PSFs that do NOT sum to one: used as given)
     F1 = [f'{T}:Deconvolution1D.__init__', f'{T}:_getConvolutionOperator', 'cuqi.problem._problem:BayesianProblem.get_components']
     for BC in ('periodic', 'zero', 'Mirror', 'reflect', 'Nearest'):
         named = (('gauss5', ('gauss', 5, 1.0)), ('gauss4', ('gauss', 4, 1.5)), ('moffat5', ('moffat', 5, 1.5)), ('defocus5', ('defocus', 5, 1.5)), ('defocus4', ('defocus', 4, 1.2)), ('defocus5_radius0', ('defocus', 5, 0))) + (() if q else (('moffat6', ('moffat', 6, 2.0)), ('gauss3', ('gauss', 3, 3.0))))
@@ -258,11 +258,11 @@ def jobs(tier):
                              'Pbox', F1 + ([f'{T}:_createPSF_1D'] if isinstance(PSF, tuple) else []), pre=mk('Deconvolution1D', **opts), rtol=1e-7))
     J.append(Job('Deconvolution1D:legacy_circulant', lambda c: deconv1d(c, 6, 'periodic', None, 'gaussian', True), 'Pbox', F1 + [f'{T}:_getCirculantMatrix'],
                  pre=mk('Deconvolution1D', dim=6, use_legacy=True, noise_std=0.05), rtol=1e-7))
-    asym6 = np.array([0.02, 0.1, 0.3, 0.4, 0.15, 0.03])
+    asym6 = np.array([0.02, 0.1, 0.3, 0.65, 0.15, 0.03])
     J.append(Job('Deconvolution1D:legacy_circulant:custom_asymmetric_PSF', lambda c: deconv1d(c, 6, 'periodic', asym6, 'gaussian', True), 'Pbox', F1 + [f'{T}:_getCirculantMatrix'],
                  pre=mk('Deconvolution1D', dim=6, PSF=asym6, use_legacy=True, noise_std=0.05), rtol=1e-7))
     F2 = [f'{T}:Deconvolution2D.__init__', f'{T}:_proj_forward_2D']
-    a3 = np.array([[0.1, 0.2, 0.05], [0.05, 0.3, 0.1], [0.02, 0.1, 0.08]])
+    a3 = np.array([[0.1, 0.2, 0.05], [0.05, 0.55, 0.1], [0.02, 0.1, 0.08]])       # (entries do NOT sum to one: a custom PSF is used as given, not rescaled)
     for BC in ('periodic', 'zero') + (() if q else ('Neumann', 'Mirror', 'Nearest')):
         for nk in ('gaussian', 'scaledgaussian'):
             J.append(Job(f'Deconvolution2D:BC={BC}:PSF=asym3x3:noise={nk}', lambda c, BC=BC, nk=nk: deconv2d(c, 4, BC, a3, nk), 'Pbox', F2,
